@@ -434,6 +434,10 @@ func ZAddMany(key string, items ...ZV) *Op {
 					eb = g
 				case int:
 					eb = []byte(strconv.Itoa(g))
+				case bool:
+					eb = []byte(map[bool]string{true: "1", false: "0"}[g])
+				case float64:
+					eb = []byte(strconv.FormatFloat(g, 'f', -1, 64))
 				}
 				if x.Raw.QueryRow(`select rzset.rowid from rzset join rkey on kid = rkey.id where key = ? and elem = ?`, key, eb).Scan(&id) == nil {
 					ord[i] = id
